@@ -171,6 +171,9 @@ pub fn run(tier: &str, seed: u64, out: &Path) -> i32 {
                 }
             }
         }
+        if let Ok(f) = std::env::var("C09_SWEEP_FILTER") {
+            all.retain(|e| e.id.contains(&f) || cfg_text(&e.cfg).contains(&f));
+        }
         eprintln!("{} elements", all.len());
         for chunk in all.chunks(200_000) {
             let res = compare_all(chunk, out, timeout);
